@@ -12,10 +12,11 @@ import GoDebian.Drv.Hashio
 import GoDebian.Drv.BuildOrder
 import GoDebian.Drv.Clearsign
 import GoDebian.Drv.Upload
+import GoDebian.Drv.Base
 
 open GoDebian GoDebian.Drv
 
-def handlers : List Handler := [versionHandler, dependencyHandler, depSpecHandler, deb822Handler, codecHandler, debHandler, changelogHandler, hashioHandler, buildOrderHandler, clearsignHandler, uploadHandler]
+def handlers : List Handler := [versionHandler, dependencyHandler, depSpecHandler, deb822Handler, codecHandler, debHandler, changelogHandler, hashioHandler, buildOrderHandler, clearsignHandler, uploadHandler, baseHandler]
 
 def dispatch (line : String) : String :=
   match (line.splitOn " ").filter (· ≠ "") with
